@@ -62,6 +62,7 @@ import (
 	metav1 "k8s.io/apimachinery/pkg/apis/meta/v1"
 	"k8s.io/apimachinery/pkg/types"
 	"k8s.io/client-go/tools/cache"
+	apiresource "k8s.io/component-helpers/resource"
 	"k8s.io/klog/v2"
 	fwktype "k8s.io/kube-scheduler/framework"
 	"k8s.io/kubernetes/pkg/scheduler/framework"
@@ -91,9 +92,10 @@ var (
 	c19Once   sync.Once
 	c19Pl     *Plugin
 	c19Lister *testSharedLister
+	c19Args   *schedulingconfig.NodeNUMAResourceArgs
 )
 
-var c19NodeNames = []string{"n0", "n1"}
+var c19NodeNames = []string{"n0", "n1", "n2"}
 
 func c19Plugin(t *testing.T) (*Plugin, *testSharedLister) {
 	c19Once.Do(func() {
@@ -107,6 +109,7 @@ func c19Plugin(t *testing.T) (*Plugin, *testSharedLister) {
 			t.Fatalf("cannot build the nodenumaresource plugin: %v", err)
 		}
 		c19Pl = p.(*Plugin)
+		c19Args = c19Pl.pluginArgs
 		l, ok := suit.Handle.SnapshotSharedLister().(*testSharedLister)
 		if !ok {
 			t.Fatalf("unexpected snapshot lister %T", suit.Handle.SnapshotSharedLister())
@@ -128,34 +131,55 @@ type c19Node struct {
 	numaRes  []NUMANodeResource
 	obj      *corev1.Node
 	memPer   int64
+
+	hugepages         bool
+	kubeletPolicy     *extension.KubeletCPUManagerPolicy
+	kubeletNUMAPolicy extension.NUMATopologyPolicy
 }
 
+const c19Huge = corev1.ResourceName("hugepages-2Mi")
+
 func c19GenNode(r *kit.Rand, name string) *c19Node {
-	sockets := r.Range(1, 2)
-	nodesPerSocket := kit.Pick(r, []int{1, 1, 2, 2})
-	coresPerNode := r.Range(1, 6)
+	sockets := kit.Pick(r, []int{1, 1, 1, 2, 2, 2, 3, 4})
+	nodesPerSocket := kit.Pick(r, []int{1, 1, 1, 2, 2, 4})
+	coresPerNode := kit.Pick(r, []int{1, 2, 3, 4, 5, 6, 7, 8, 16})
 	threads := kit.Pick(r, []int{1, 2, 2, 2, 4})
+	for sockets*nodesPerSocket > 6 { // the topology manager's hint merge is exponential in #NUMA nodes x #resources
+		nodesPerSocket /= 2
+	}
+	for sockets*nodesPerSocket*coresPerNode*threads > 192 { // keep a case cheap
+		coresPerNode = (coresPerNode + 1) / 2
+	}
 	sparse := r.Pct(40)
+	// CPU ids need not start at 0 and may have holes (offline cores)
+	base := 0
+	if r.Pct(15) {
+		base = r.Range(1, 64)
+	}
+	offline := -1
 	b := NewCPUTopologyBuilder()
 	cores := sockets * nodesPerSocket * coresPerNode
+	if r.Pct(12) && cores > 2 {
+		offline = r.Intn(cores)
+	}
 	coreID := 0
 	for s := 0; s < sockets; s++ {
 		for n := 0; n < nodesPerSocket; n++ {
 			nodeID := s*nodesPerSocket + n
 			for c := 0; c < coresPerNode; c++ {
-				for p := 0; p < threads; p++ {
+				for p := 0; p < threads && coreID != offline; p++ {
 					cpuID := coreID*threads + p
 					if sparse {
 						cpuID = p*cores + coreID // thread siblings are cpu and cpu+cores (usual Linux numbering)
 					}
-					b.AddCPUInfo(s, nodeID, coreID, cpuID)
+					b.AddCPUInfo(s, nodeID, coreID, base+cpuID)
 				}
 				coreID++
 			}
 		}
 	}
-	n := &c19Node{name: name, topo: b.Result(), maxRef: kit.Pick(r, []int{1, 1, 1, 1, 1, 1, 2})}
-	n.desc = fmt.Sprintf("%dx%dx%dx%d sparse=%v", sockets, nodesPerSocket, coresPerNode, threads, sparse)
+	n := &c19Node{name: name, topo: b.Result(), maxRef: kit.Pick(r, []int{1, 1, 1, 1, 1, 1, 1, 2, 2, 3})}
+	n.desc = fmt.Sprintf("%dx%dx%dx%d sparse=%v base=%d offlineCore=%d", sockets, nodesPerSocket, coresPerNode, threads, sparse, base, offline)
 	n.reserved = cpuset.NewCPUSet()
 	if r.Pct(30) {
 		rb := cpuset.NewCPUSetBuilder()
@@ -166,12 +190,30 @@ func c19GenNode(r *kit.Rand, name string) *c19Node {
 		}
 		n.reserved = rb.Result()
 	}
-	n.memPer = int64(kit.Pick(r, []int{64, 100, 1 << 20, 1<<30 + 1, 3 << 30}))
+	n.memPer = kit.Pick(r, []int64{64, 100, 1 << 20, 1<<30 + 1, 3 << 30, 1 << 40})
+	n.hugepages = r.Pct(25)
+	memless := -1
+	if n.topo.NumNodes > 1 && r.Pct(10) {
+		memless = r.Intn(n.topo.NumNodes) // a NUMA node without memory of its own
+	}
 	for i := 0; i < n.topo.NumNodes; i++ {
-		n.numaRes = append(n.numaRes, NUMANodeResource{Node: i, Resources: corev1.ResourceList{
-			corev1.ResourceCPU:    *resource.NewMilliQuantity(int64(n.topo.CPUsPerNode())*1000, resource.DecimalSI),
+		rl := corev1.ResourceList{
+			corev1.ResourceCPU:    *resource.NewMilliQuantity(int64(n.topo.CPUDetails.CPUsInNUMANodes(i).Size())*1000, resource.DecimalSI),
 			corev1.ResourceMemory: *resource.NewQuantity(n.memPer, resource.BinarySI),
-		}})
+		}
+		if i == memless {
+			rl[corev1.ResourceMemory] = *resource.NewQuantity(0, resource.BinarySI)
+		}
+		if n.hugepages {
+			rl[c19Huge] = *resource.NewQuantity(int64(r.Range(0, 8))<<21, resource.BinarySI)
+		}
+		n.numaRes = append(n.numaRes, NUMANodeResource{Node: i, Resources: rl})
+	}
+	if r.Pct(8) {
+		n.kubeletPolicy = &extension.KubeletCPUManagerPolicy{Policy: extension.KubeletCPUManagerPolicyStatic, Options: map[string]string{extension.KubeletCPUManagerPolicyFullPCPUsOnlyOption: "true"}}
+	}
+	if r.Pct(8) {
+		n.kubeletNUMAPolicy = kit.Pick(r, []extension.NUMATopologyPolicy{extension.NUMATopologyPolicyBestEffort, extension.NUMATopologyPolicyRestricted, extension.NUMATopologyPolicySingleNUMANode})
 	}
 	labels := map[string]string{}
 	if p := kit.Pick(r, []extension.NUMATopologyPolicy{"", "", "", extension.NUMATopologyPolicyBestEffort, extension.NUMATopologyPolicyRestricted, extension.NUMATopologyPolicySingleNUMANode, extension.NUMATopologyPolicySingleNUMANode}); p != "" {
@@ -190,6 +232,14 @@ func c19GenNode(r *kit.Rand, name string) *c19Node {
 			corev1.ResourceMemory: *resource.NewQuantity(n.memPer*int64(n.topo.NumNodes), resource.BinarySI),
 		}},
 	}
+	if r.Pct(12) {
+		// CPU amplification (the node advertises more CPU than it has)
+		ratio := kit.Pick(r, []extension.Ratio{1.5, 2, 3})
+		extension.SetNodeRawAllocatable(n.obj, n.obj.Status.Allocatable)
+		extension.AmplifyResourceList(n.obj.Status.Allocatable, map[corev1.ResourceName]extension.Ratio{corev1.ResourceCPU: ratio}, corev1.ResourceCPU)
+		_, _ = extension.SetNodeResourceAmplificationRatio(n.obj, corev1.ResourceCPU, ratio)
+		n.desc += fmt.Sprintf(" amplify=%v", ratio)
+	}
 	return n
 }
 
@@ -205,6 +255,8 @@ func (n *c19Node) install(tom TopologyOptionsManager) {
 			res = append(res, NUMANodeResource{Node: nr.Node, Resources: nr.Resources.DeepCopy()})
 		}
 		o.NUMANodeResources = res
+		o.Policy = n.kubeletPolicy
+		o.NUMATopologyPolicy = n.kubeletNUMAPolicy
 	})
 }
 
@@ -214,7 +266,7 @@ func (n *c19Node) describe() string {
 		keys = append(keys, k[strings.LastIndex(k, "/")+1:]+"="+v)
 	}
 	sort.Strings(keys)
-	return fmt.Sprintf("%s topo=%s maxRef=%d reserved=%q mem/numa=%d labels=%v", n.name, n.desc, n.maxRef, n.reserved.String(), n.memPer, keys)
+	return fmt.Sprintf("%s topo=%s maxRef=%d reserved=%q mem/numa=%d hugepages=%v kubelet=%v/%q labels=%v", n.name, n.desc, n.maxRef, n.reserved.String(), n.memPer, n.hugepages, n.kubeletPolicy != nil, n.kubeletNUMAPolicy, keys)
 }
 
 // ---------------------------------------------------------------------------------------------
@@ -354,7 +406,42 @@ func c19GenPodSpec(r *kit.Rand, n *c19Node, pod *corev1.Pod) string {
 		pod.Annotations[extension.AnnotationNUMATopologySpec] = string(b)
 		class += "+numaspec"
 	}
+	if n.hugepages && class != "zero" && r.Pct(30) {
+		reqs[c19Huge] = *resource.NewQuantity(int64(r.Range(1, 4))<<21, resource.BinarySI)
+		class += "+huge"
+	}
+	if class == "lsr" && r.Pct(4) {
+		reqs[corev1.ResourceCPU] = c19QM(1500) // not a whole number of CPUs: refused for FullPCPUs / SpreadByPCPUs
+		class = "lsr-frac"
+	}
+	if r.Pct(8) {
+		// an explicit priority outside koord-prod: LSE/LSR then does not entitle to a cpuset
+		pod.Spec.Priority = ptr.To[int32](kit.Pick(r, []int32{extension.PriorityMidValueMin, extension.PriorityMidValueMax, extension.PriorityBatchValueMax, 0}))
+		class += "+prio"
+	}
 	pod.Spec.Containers = []corev1.Container{{Name: "main", Resources: corev1.ResourceRequirements{Requests: reqs, Limits: reqs.DeepCopy()}}}
+	if len(reqs) > 0 && r.Pct(20) {
+		// the same total spread over two containers (whole CPUs stay whole)
+		second := corev1.ResourceList{}
+		for name, q := range reqs {
+			if name == corev1.ResourceCPU && q.MilliValue() >= 2000 && q.MilliValue()%1000 == 0 {
+				second[name] = c19Q(1)
+				reqs[name] = c19Q(q.Value() - 1)
+			} else if name == corev1.ResourceMemory && q.Value() >= 2 {
+				second[name] = c19QB(1)
+				reqs[name] = c19QB(q.Value() - 1)
+			}
+		}
+		if len(second) > 0 {
+			pod.Spec.Containers[0].Resources = corev1.ResourceRequirements{Requests: reqs, Limits: reqs.DeepCopy()}
+			pod.Spec.Containers = append(pod.Spec.Containers, corev1.Container{Name: "side", Resources: corev1.ResourceRequirements{Requests: second, Limits: second.DeepCopy()}})
+			class += "+2c"
+		}
+	}
+	if len(reqs) > 0 && r.Pct(10) {
+		// an init container below the sum of the app containers does not change the pod's request
+		pod.Spec.InitContainers = []corev1.Container{{Name: "init", Resources: corev1.ResourceRequirements{Requests: corev1.ResourceList{corev1.ResourceMemory: c19QB(1)}}}}
+	}
 	return class
 }
 
@@ -366,7 +453,9 @@ func c19NewObj(r *kit.Rand, seq int, n *c19Node) *c19Obj {
 		o.isRsv = true
 		o.name = fmt.Sprintf("r%d", seq)
 		o.uid = types.UID(fmt.Sprintf("uid-r%d", seq))
-		tmpl.Spec.Priority = ptr.To[int32](extension.PriorityProdValueMax)
+		if tmpl.Spec.Priority == nil {
+			tmpl.Spec.Priority = ptr.To[int32](extension.PriorityProdValueMax)
+		}
 		o.rsv = &schedulingv1alpha1.Reservation{
 			ObjectMeta: metav1.ObjectMeta{Name: o.name, UID: o.uid, ResourceVersion: "1"},
 			Spec: schedulingv1alpha1.ReservationSpec{
@@ -382,7 +471,7 @@ func c19NewObj(r *kit.Rand, seq int, n *c19Node) *c19Obj {
 	}
 	o.name = fmt.Sprintf("p%d", seq)
 	o.uid = types.UID(fmt.Sprintf("uid-p%d", seq))
-	tmpl.Namespace, tmpl.Name, tmpl.UID, tmpl.ResourceVersion = "default", o.name, o.uid, "1"
+	tmpl.Namespace, tmpl.Name, tmpl.UID, tmpl.ResourceVersion = kit.Pick(r, []string{"default", "default", "default", "default", "ns1"}), o.name, o.uid, "1"
 	o.pod = tmpl
 	return o
 }
@@ -450,6 +539,11 @@ func c19Touch(r *kit.Rand, obj interface{}) interface{} {
 	m.Labels["touched"] = m.ResourceVersion
 	if p, ok := out.(*corev1.Pod); ok && r.Bool() {
 		p.Status.Phase = corev1.PodRunning
+	}
+	if r.Pct(12) && m.DeletionTimestamp == nil {
+		// terminating (graceful deletion under way): the pod still runs and still holds what it was given
+		ts := metav1.Unix(1700000000, 0)
+		m.DeletionTimestamp = &ts
 	}
 	return out
 }
@@ -784,7 +878,7 @@ func (w *c19Cmp) compare(live, replay *resourceManager, tomLive, tomReplay Topol
 		frL, _, _ := live.getAvailableNUMANodeResources(n.name, tomLive.GetTopologyOptions(n.name), nil)
 		frR, _, _ := replay.getAvailableNUMANodeResources(n.name, tomReplay.GetTopologyOptions(n.name), nil)
 		for id := 0; id < n.topo.NumNodes; id++ {
-			for _, name := range []corev1.ResourceName{corev1.ResourceCPU, corev1.ResourceMemory} {
+			for _, name := range []corev1.ResourceName{corev1.ResourceCPU, corev1.ResourceMemory, c19Huge} {
 				a, b := frL[id][name], frR[id][name]
 				if s := b.Cmp(a); s > 0 {
 					c.Fail("C19/numa/numa-amount-free-after-restart", "node %s NUMA node %d: free %s is %s in the live scheduler and %s in the restarted one", n.name, id, name, a.String(), b.String())
@@ -828,13 +922,18 @@ type c19Event struct {
 func TestVerifC19NUMARestart(t *testing.T) {
 	pl, lister := c19Plugin(t)
 	ctx := context.TODO()
-	kit.Run(t, kit.Config{Property: "C19", Unit: "numa-restart", Quick: 5000, Thorough: 80000,
-		Rule: "histories of 10-60 operations on 2 nodes (random topology, reserved CPUs, sharing limit 1-2, NUMA-policy / CPU-bind-policy labels) of the real nodenumaresource Plugin: schedule a pod or reservation (PreFilter, Filter with the real NUMA topology manager, Reserve), PreBind + bind, unreserve, metadata update, terminate, delete, informer echo to the live scheduler; cut after a bind; in-flight objects unreserved; surviving objects replayed into a fresh resourceManager through the real pod / reservation event handlers in random order with 20% duplicate adds and 20% no-op updates; live vs replayed NodeAllocation compared; distinct = (object kind, request class, node policy labels, cpuset string form, #NUMA nodes with amounts, outcome) and (replay event kind, object state); non-trivial = at least two surviving allocations on one node and at least one allocation of the history that does not survive (unreserved, terminated, deleted, in flight)"},
+	kit.Run(t, kit.Config{Property: "C19", Unit: "numa-restart", Quick: 3000, Thorough: 60000,
+		Rule: "histories of 10-120 operations on 1-3 nodes (1-4 sockets x 1-4 NUMA nodes x 1-16 cores x 1-4 threads, CPU ids with base offset / an offline core, reserved CPUs, sharing limit 1-3, per-NUMA cpu / memory / hugepages incl. a memory-less NUMA node, CPU amplification, kubelet static policy, NUMA-policy / CPU-bind-policy labels) of the real nodenumaresource Plugin: schedule a pod or reservation (PreFilter, Filter with the real NUMA topology manager, Reserve), PreBind + bind, unreserve, metadata update, terminate, delete, informer echo to the live scheduler; cut after a bind; in-flight objects unreserved; surviving objects replayed into a fresh resourceManager through the real pod / reservation event handlers in random order with 20% duplicate adds and 20% no-op updates; live vs replayed NodeAllocation compared; distinct = (object kind, request class, node policy labels, cpuset string form, #NUMA nodes with amounts, outcome) and (replay event kind, object state); non-trivial = at least two surviving allocations on one node and at least one allocation of the history that does not survive (unreserved, terminated, deleted, in flight)"},
 		func(c *kit.Case) {
 			r := c.R
-			nodes := make([]*c19Node, len(c19NodeNames))
+			nodes := make([]*c19Node, kit.Pick(r, []int{1, 2, 2, 2, 2, 3, 3}))
 			tomL := NewTopologyOptionsManager()
-			for i, name := range c19NodeNames {
+			// plugin arguments: the default bind policy applies to LSE/LSR pods that name none
+			args := *c19Args
+			args.DefaultCPUBindPolicy = kit.Pick(r, []schedulingconfig.CPUBindPolicy{schedulingconfig.CPUBindPolicyFullPCPUs, schedulingconfig.CPUBindPolicyFullPCPUs, schedulingconfig.CPUBindPolicySpreadByPCPUs})
+			pl.pluginArgs = &args
+			c.Op("plugin args: defaultCPUBindPolicy=%s", args.DefaultCPUBindPolicy)
+			for i, name := range c19NodeNames[:len(nodes)] {
 				nodes[i] = c19GenNode(r, name)
 				nodes[i].install(tomL)
 				lister.nodeInfoMap[name].SetNode(nodes[i].obj)
@@ -952,7 +1051,7 @@ func TestVerifC19NUMARestart(t *testing.T) {
 				case *schedulingv1alpha1.Reservation:
 					t.Status.NodeName = o.node.name
 					t.Status.Phase = schedulingv1alpha1.ReservationAvailable
-					t.Status.Allocatable = o.pod.Spec.Containers[0].Resources.Requests.DeepCopy()
+					t.Status.Allocatable = apiresource.PodRequests(o.pod, apiresource.PodResourcesOptions{})
 				}
 				if r.Bool() {
 					obj = c19ViaAPI(c, obj)
@@ -998,6 +1097,9 @@ func TestVerifC19NUMARestart(t *testing.T) {
 			}
 
 			nops := r.Range(10, 60)
+			if r.Pct(10) {
+				nops = r.Range(60, 120)
+			}
 			for op := 0; op < nops; op++ {
 				switch r.Weighted(40, 10, 6, 14, 10, 8, 8) {
 				case 0: // schedule (+ usually bind right away)
